@@ -222,7 +222,9 @@ def slot_checks(m, bk, suffix, ref, pt, vals, schemes, unit, add, res, rng):
         if schemes:
             try:  # GRL slot: compare with the numpy GRL by name is C06/C02; here only: every slot written, none twice
                 arr = m.raw("generalized_rush_larsen", s, pt["t"], p, dt=dt)
-                if bk == "c" and (np.any(np.isnan(arr[: len(ref.states)])) and not any(math.isnan(v) for v in vals.values())):
+                # (not in integer-quotient territory: there `dh_dt_linearized = 1/3` is 0 in C and the unguarded Rush-Larsen quotient is 0/0 -
+                # a NaN that was written, both causes are listed findings of C02 / C06)
+                if bk == "c" and not ref.c_unsafe() and (np.any(np.isnan(arr[: len(ref.states)])) and not any(math.isnan(v) for v in vals.values())):
                     add(f"slot-not-written:generalized_rush_larsen{suffix}", "a state slot is left unwritten by generalized_rush_larsen", "all slots", cm.tolist(arr), chk=chk)
             except be.Stage:
                 pass
